@@ -2411,6 +2411,11 @@ func (tc *typechecker) checkDefault(expr *ast.Default, show bool) typeInfoPair {
 	}
 	tis[1] = tc.checkExpr(expr.Expr2)
 	tc.toBeEmitted = toBeEmitted
+	if tis[1].Nil() {
+		// The default expression has no type from which the type of the
+		// untyped nil could be taken.
+		panic(tc.errorf(expr.Expr2, "use of untyped nil in default expression"))
+	}
 
 	if _, ok := expr.Expr1.(*ast.Identifier); !ok && !show {
 		if typ := tis[1].Type; !tc.isFormatType(typ) {
